@@ -28,40 +28,49 @@ RECURSIVE Build(_, _)
 Build(S, reqs) == IF reqs = <<>> THEN S ELSE Build(Op(Head(reqs).kind, S, Head(reqs).a, 1).db, Tail(reqs))
 Routed1 == ("resonate:invoke" :> "w")
 
-\* --- deadline: a read, a completion and a repeated creation meet at the deadline of a promise
-\*     that somebody subscribed to, while the time-out sweep runs
-Setup_deadline == << Create("p", 5, Some("k"), FALSE, NoTags), Subscribe("p", "s", 9) >>
+\* Every behaviour takes `Parties` of the scenario's requests and sweeps (Kernel!Init chooses them
+\* in every possible way), so a scenario lists everything that can meet on its promise or task.
+
+\* --- deadline: reads, completions, repeated creations and registrations meet at the deadline of a
+\*     promise that somebody subscribed to, while the time-out sweep runs
+Setup_deadline == << Create("p", 5, Some("k"), FALSE, NoTags), Subscribe("p", "s", 9), Create("r", 9, None, FALSE, Routed1) >>
 DB_deadline == Build(EmptyDB, Setup_deadline)
-Script_deadline == << Read("p"), CompleteP("p", RESOLVED, Some("c"), FALSE), Create("p", 5, Some("k"), FALSE, NoTags) >>
+Script_deadline == << Read("p"), CompleteP("p", RESOLVED, Some("c"), FALSE), CompleteP("p", REJECTED, None, TRUE),
+                      Create("p", 5, Some("k"), FALSE, NoTags), Create("p", 5, None, TRUE, NoTags),
+                      Callback("p", "r", 9), Subscribe("p", "s2", 9) >>
 Times_deadline == {4, 5}
 
-\* --- register: registrations race with the completion of the promise they wait for
+\* --- register: registrations race with the completion of the promise they wait for (no deadline near)
 Setup_register == << Create("p", 9, None, FALSE, NoTags), Create("r", 9, None, FALSE, Routed1) >>
 DB_register == Build(EmptyDB, Setup_register)
-Script_register == << Callback("p", "r", 9), Subscribe("p", "s", 9), CompleteP("p", REJECTED, None, FALSE) >>
+Script_register == << Callback("p", "r", 9), Subscribe("p", "s", 9), CompleteP("p", REJECTED, None, FALSE), Callback("p", "r", 9), Read("p") >>
 Times_register == {3}
 
-\* --- lease: two workers and a stale completion around the end of a lease, while the lease sweep runs
+\* --- lease: workers, a stale completion, a heartbeat and the completion of the promise around a
+\*     hand-off and the end of a lease, while the dispatcher and the lease sweep run
 Setup_lease == << Create("p", 20, None, FALSE, Routed1) >>
 DB_lease == Build(EmptyDB, Setup_lease)
-Script_lease == << Claim("__invoke:p", 1, "w1", 2), Claim("__invoke:p", 1, "w2", 2), CompleteT("__invoke:p", 1) >>
-Times_lease == {2, 4}
+Script_lease == << Claim("__invoke:p", 1, "w1", 2), Claim("__invoke:p", 1, "w2", 2), CompleteT("__invoke:p", 1), Beat("w1"),
+                   CompleteP("p", RESOLVED, None, FALSE), Claim("__invoke:p", 2, "w2", 2) >>
+Times_lease == {2, 5}
 
-\* --- beat: a heartbeat and a completion of the holder against the lease sweep and a rival
+\* --- beat: the holder's heartbeat and completion against the lease sweep and a rival
 Setup_beat == << CreateT("p", 20, Routed1, "w1", 2) >>
 DB_beat == Build(EmptyDB, Setup_beat)
-Script_beat == << Beat("w1"), CompleteT("__invoke:p", 1), Claim("__invoke:p", 2, "w2", 2) >>
+Script_beat == << Beat("w1"), CompleteT("__invoke:p", 1), Claim("__invoke:p", 2, "w2", 2), Claim("__invoke:p", 1, "w2", 2), CompleteP("p", RESOLVED, None, FALSE) >>
 Times_beat == {2, 3, 5}
 
 \* --- wake: the completion of a promise wakes its waiters while the dispatcher and a claim run
 Setup_wake == << Create("r", 20, None, FALSE, Routed1), Create("p", 20, None, FALSE, NoTags), Callback("p", "r", 20), Subscribe("p", "s", 20) >>
 DB_wake == Build(EmptyDB, Setup_wake)
-Script_wake == << CompleteP("p", RESOLVED, None, FALSE), CompleteP("p", REJECTED, None, TRUE), Claim("__resume:r:p", 1, "w1", 3) >>
+Script_wake == << CompleteP("p", RESOLVED, None, FALSE), CompleteP("p", REJECTED, None, TRUE), Claim("__resume:r:p", 1, "w1", 3),
+                  Read("p"), CompleteP("r", RESOLVED, None, FALSE), Subscribe("p", "s2", 20) >>
 Times_wake == {2}
 
-\* --- create: creations of a routed promise (with and without a task) race with each other
+\* --- create: creations of a routed promise (with and without a task) race with each other and with its completion
 Setup_create == <<>>
 DB_create == EmptyDB
-Script_create == << Create("p", 5, Some("k"), FALSE, Routed1), CreateT("p", 5, Routed1, "w1", 2), Read("p") >>
+Script_create == << Create("p", 5, Some("k"), FALSE, Routed1), CreateT("p", 5, Routed1, "w1", 2), Read("p"),
+                    Create("p", 5, Some("j"), FALSE, NoTags), CompleteP("p", RESOLVED, None, FALSE) >>
 Times_create == {2, 5}
 =============================================================================
